@@ -41,6 +41,15 @@
 (*             record file and value file renamed in two steps             *)
 (*   A11Fixed  FALSE = persistence is attempted only at wheel visits       *)
 (*   A26Fixed  FALSE = a later holder inherits the delay of the oldest     *)
+(* Value-less deadline updates (LOCK with the update flag by a holder,      *)
+(* UpdateReq) write a LOCK record with the update flag; the compaction     *)
+(* filter keeps such a record only while it still describes the holder's   *)
+(* terms (HasLock -> CheckLockedEqual, tolerance EqLater / EqEarlier units *)
+(* around the deadline; the engine's own +1 s drift between the deadline   *)
+(* and what the record replays to is why the later side needs 1).  With    *)
+(* EqLater = 0 (a mutation, not the code) TLC must refute C16_Steps: the   *)
+(* current update record is dropped, the compacted files recover the       *)
+(* ORIGINAL deadline.                                                      *)
 (* With a switch FALSE TLC must refute the invariant; the counterexample   *)
 (* (variable hist, printed as JSON by the CEX wrappers) is replayed on the *)
 (* real code.  Finding A27 (expired records skipped one by one) needs no   *)
@@ -63,6 +72,8 @@ CONSTANTS
     Crash,                 \* TRUE: one CrashRestart allowed (C08 second epoch)
     Admin,                 \* TRUE: the admin rewrite trigger is enabled
     A2Fixed, A2bFixed, A3Fixed, A11Fixed, A26Fixed,
+    UpdExps,               \* Expried values of value-less deadline UPDATEs (update flag) by a holder; {} = no such requests
+    EqLater, EqEarlier,    \* tolerance (in units of the record) of LockManager.CheckLockedEqual: 1 / 1 as the code is
     Turns                  \* {"any"} for exhaustive checking; class tokens to balance random walks (AofLogSim)
 
 R == INSTANCE AofReplay
@@ -198,6 +209,26 @@ UnlockReq(k, lid, rc) ==
     /\ hist' = Append(hist, [op |-> "unlock", key |-> k, lid |-> lid, rc |-> rc])
     /\ UNCHANGED <<now, rw, epoch>>
 
+\* value-less deadline update by a holder (LockDB.Lock, update-flag branch -> LockManager.UpdateLockedLock): the
+\* request re-states the holder's Count / Rcount and moves the deadline; a persisted hold logs it at once
+UpdateReq(k, lid, ex) ==
+    LET ks == eng[k]
+        H  == ks.H
+        i  == IdxOfLid(H, lid)
+        u  == IF i > 0 /\ R!Bit(H[i].ef, 64) THEN "m" ELSE "s"       \* the update keeps the unit of the hold
+        dl == now + ex * ULen(u) + 1
+    IN
+    /\ nops < MaxOps
+    /\ DepthSum(H) > 0 /\ i > 0
+    /\ LET h2 == [H[i] EXCEPT !.ef = EF(u), !.start = now, !.exp = dl]
+           rs == IF h2.isAof THEN <<[LockRec(k, ks, h2, TRUE, now) EXCEPT !.fl = 2]>> ELSE <<>>
+           ks2 == [ks EXCEPT !.H[i] = h2, !.vaof = IF rs # <<>> /\ ks.val # 0 THEN TRUE ELSE @]
+       IN /\ eng' = [eng EXCEPT ![k] = ks2]
+          /\ Write(rs)
+    /\ nops' = nops + 1
+    /\ hist' = Append(hist, [op |-> "update", key |-> k, lid |-> lid, cnt |-> H[i].cnt, rc |-> H[i].rc, ex |-> ex, cls |-> H[i].cls, unit |-> u])
+    /\ UNCHANGED <<now, rw, epoch>>
+
 \* the expiry sweep of second t visits every entry whose slot is due
 RECURSIVE SweepKey(_, _, _, _, _)
 SweepKey(k, ks, i, t, acc) ==           \* returns [ks, recs]
@@ -234,12 +265,25 @@ Tick ==
 
 EngState == [k \in {kk \in Keys : eng[kk].H # <<>>} |-> eng[k]]
 
-\* LockDB.HasLock (requests of this model never carry the update flag)
+\* LockManager.CheckLockedEqual: does the record still describe the holder's terms?  The deadline the record replays to
+\* at `now` against the holder's, with the tolerance of the code (one unit either way), and Count / Rcount
+CheckEq(h, r) ==
+    LET u == R!UnitOf(r.ef)
+        expd == now + R!ReplayExpried(r, now) * u + 1
+    IN /\ IF expd > h.exp THEN expd - h.exp <= EqLater * u ELSE h.exp - expd <= EqEarlier * u
+       /\ r.cnt = h.cnt /\ r.rc = h.rc
+
+\* LockDB.HasLock
 HasLock(r) ==
     LET ks == eng[r.key] IN
     /\ DepthSum(ks.H) > 0
     /\ IF r.ty = 1 /\ R!ReplayExpried(r, now) = 0
        THEN (IF R!HasData(r) THEN ks.val # 0 /\ ValStr(ks.val) = r.data ELSE ks.val = 0)
+       ELSE IF r.ty = 1 /\ R!Bit(r.fl, 2)
+       THEN \* a record written by an update: kept while the key still has the value it carries, else while it is current
+            LET i == IdxOfLid(ks.H, r.lid) IN
+            /\ i > 0
+            /\ IF R!HasData(r) /\ ks.val # 0 /\ ValStr(ks.val) = r.data THEN TRUE ELSE CheckEq(ks.H[i], r)
        ELSE IdxOfLid(ks.H, r.lid) > 0
 
 Rewritten(r) == [r EXCEPT !.af = IF R!Bit(@, 1) THEN @ ELSE @ + 1]
@@ -451,6 +495,7 @@ Ops ==
     \/ \E k \in Keys, lid \in Lids, cnt \in Counts, rc \in Rcounts, ex \in Exps, cls \in Classes, u \in Units, v \in Vals :
           LockReq(k, lid, cnt, rc, ex, cls, u, v)
     \/ \E k \in Keys, lid \in Lids, rc \in Rcounts : UnlockReq(k, lid, rc)
+    \/ \E k \in Keys, lid \in Lids, ex \in UpdExps : UpdateReq(k, lid, ex)
     \/ Tick
     \/ AdminRewrite
 
